@@ -21,7 +21,7 @@ import (
 
 func c11N(tier string) int {
 	if tier == "quick" {
-		return 3000
+		return 6000
 	}
 	return 60000
 }
